@@ -24,10 +24,10 @@ static void prf(void)
         ref_prf(key, 0, msg, il, exp, maxout + 8);
         for (int ol = 0; ol <= maxout; ol++) {
             uint8_t *o = hx_buf(ol);
-            ascon_prf(o, ol, il ? msg : 0, il, key);
+            ascon_prf(o, ol, HX_OPT(msg, il), il, key);
             cmpo("prf:oneshot", o, exp, ol, "inlen/outlen", il, ol, 0, 0);
             memset(o, 0xAA, ol);
-            { ascon_prf_state_t s; ascon_prf_init(&s, key); ascon_prf_absorb(&s, il ? msg : 0, il); ascon_prf_squeeze(&s, o, ol); ascon_prf_free(&s); }
+            { ascon_prf_state_t s; ascon_prf_init(&s, key); ascon_prf_absorb(&s, HX_OPT(msg, il), il); ascon_prf_squeeze(&s, o, ol); ascon_prf_free(&s); }
             cmpo("prf:incremental", o, exp, ol, "inlen/outlen", il, ol, 0, 0);
             memset(o, 0xAA, ol);
             /* the same computation with input and output each given in several calls (one empty); split points vary with the shape */
@@ -36,10 +36,10 @@ static void prf(void)
               ascon_prf_squeeze(&s, o, o1); ascon_prf_squeeze(&s, o + o1, 0); ascon_prf_squeeze(&s, o + o1, o2 - o1); ascon_prf_squeeze(&s, o + o2, ol - o2); ascon_prf_free(&s);
               cmpo("prf:incremental-chunked", o, exp, ol, "inlen/outlen/split-in/split-out", il, ol, i1, o1); memset(o, 0xAA, ol); }
             uint8_t *e2 = malloc(ol + 1); ref_prf(key, ol, msg, il, e2, ol);
-            ascon_prf_fixed(o, ol, il ? msg : 0, il, key);
+            ascon_prf_fixed(o, ol, HX_OPT(msg, il), il, key);
             cmpo("prf:fixed", o, e2, ol, "inlen/outlen", il, ol, 0, 0);
             memset(o, 0xAA, ol);
-            { ascon_prf_state_t s; ascon_prf_fixed_init(&s, key, ol); ascon_prf_absorb(&s, il ? msg : 0, il); ascon_prf_squeeze(&s, o, ol); ascon_prf_free(&s); }
+            { ascon_prf_state_t s; ascon_prf_fixed_init(&s, key, ol); ascon_prf_absorb(&s, HX_OPT(msg, il), il); ascon_prf_squeeze(&s, o, ol); ascon_prf_free(&s); }
             cmpo("prf:fixed-incremental", o, e2, ol, "inlen/outlen", il, ol, 0, 0);
             free(e2); hx_free(o); hx_stat("nontrivial", 1);
         }
@@ -69,7 +69,7 @@ static void prfshort(void)
     uint8_t key[16], msg[32]; hx_fill(key, 16, pat, 1); hx_fill(msg, 32, pat, 4);
     for (int il = 0; il <= 20; il++) for (int ol = 0; ol <= 20; ol++) {
         uint8_t *o = hx_buf(ol), e[32];
-        int r = ascon_prf_short(o, ol, il ? msg : 0, il, key);
+        int r = ascon_prf_short(o, ol, HX_OPT(msg, il), il, key);
         int rr = ref_prf_short(key, msg, il, e, ol);
         hx_stat("evaluations", 1); hx_stat("nontrivial", 1);
         if (rr < 0) { if (r >= 0) hx_fail("prfshort:limit", "inlen=%d outlen=%d accepted (result %d), must report an error", il, ol, r); }
@@ -95,20 +95,20 @@ static void mac(void)
     for (int il = 0; il <= maxin; il++) {
         uint8_t *t = hx_buf(16);
         ref_prf(key, 16, msg, il, e, 16);
-        ascon_mac(t, il ? msg : 0, il, key);
+        ascon_mac(t, HX_OPT(msg, il), il, key);
         cmpo("mac:value", t, e, 16, "inlen", il, 0, 0, 0);
         hx_stat("evaluations", 1);
-        if (ascon_mac_verify(e, il ? msg : 0, il, key) != 0) hx_fail("mac:verify-rejects-correct", "inlen=%d", il);
+        if (ascon_mac_verify(e, HX_OPT(msg, il), il, key) != 0) hx_fail("mac:verify-rejects-correct", "inlen=%d", il);
         for (int b = 0; b < 128; b++) {
             e[b / 8] ^= (uint8_t)(1 << (b % 8));
             hx_stat("evaluations", 1); hx_stat("nontrivial", 1);
-            if (ascon_mac_verify(e, il ? msg : 0, il, key) >= 0) hx_fail("mac:verify-accepts-wrong", "bit %d flipped inlen=%d", b, il);
+            if (ascon_mac_verify(e, HX_OPT(msg, il), il, key) >= 0) hx_fail("mac:verify-accepts-wrong", "bit %d flipped inlen=%d", b, il);
             e[b / 8] ^= (uint8_t)(1 << (b % 8));
         }
         if (il < 3 || il == 32 || il == 33 || (tier && il % 16 == 0))
             for (int i = 0; i < 16; i++) for (int v = 1; v < 256; v++) {
                 e[i] ^= (uint8_t)v; hx_stat("evaluations", 1); hx_stat("nontrivial", 1);
-                if (ascon_mac_verify(e, il ? msg : 0, il, key) >= 0) hx_fail("mac:verify-accepts-wrong", "byte %d xor %02x inlen=%d", i, v, il);
+                if (ascon_mac_verify(e, HX_OPT(msg, il), il, key) >= 0) hx_fail("mac:verify-accepts-wrong", "byte %d xor %02x inlen=%d", i, v, il);
                 e[i] ^= (uint8_t)v;
             }
         /* wrong message / wrong key with the right tag */
@@ -133,7 +133,7 @@ static void hmac(void)
             if (tier && kl > 70 && kl != 1000 && kl != 96 && kl != 97 && kl != 128 && kl != 129 && ml > 34) continue;
             uint8_t *o = hx_buf(32);
             ref_hmac(A, key, kl, msg, ml, e);
-            if (A) ascon_hmaca(o, kl ? key : 0, kl, ml ? msg : 0, ml); else ascon_hmac(o, kl ? key : 0, kl, ml ? msg : 0, ml);
+            if (A) ascon_hmaca(o, HX_OPT(key, kl), kl, HX_OPT(msg, ml), ml); else ascon_hmac(o, HX_OPT(key, kl), kl, HX_OPT(msg, ml), ml);
             cmpo(A ? "hmaca:oneshot" : "hmac:oneshot", o, e, 32, "keylen/msglen", kl, ml, 0, 0);
             memset(o, 0xAA, 32);
             if (A) { ascon_hmaca_state_t s; ascon_hmaca_init(&s, key, kl); ascon_hmaca_update(&s, msg, ml); ascon_hmaca_finalize(&s, key, kl, o); ascon_hmaca_free(&s); }
@@ -163,8 +163,8 @@ static void kmac(void)
                     int ol = outs[oi];
                     uint8_t *o = hx_buf(ol);
                     ref_kmac(A, key, kl, msg, ml, cust, cl, e, ol);
-                    if (A) ascon_kmaca(kl ? key : 0, kl, ml ? msg : 0, ml, cl ? cust : 0, cl, o, ol);
-                    else ascon_kmac(kl ? key : 0, kl, ml ? msg : 0, ml, cl ? cust : 0, cl, o, ol);
+                    if (A) ascon_kmaca(HX_OPT(key, kl), kl, HX_OPT(msg, ml), ml, HX_OPT(cust, cl), cl, o, ol);
+                    else ascon_kmac(HX_OPT(key, kl), kl, HX_OPT(msg, ml), ml, HX_OPT(cust, cl), cl, o, ol);
                     cmpo(A ? "kmaca:oneshot" : "kmac:oneshot", o, e, ol, "key/msg/custom/out", kl, ml, cl, ol);
                     memset(o, 0xAA, ol);
                     if (A) { ascon_kmaca_state_t s; ascon_kmaca_init(&s, key, kl, cust, cl, ol); ascon_kmaca_absorb(&s, msg, ml); ascon_kmaca_squeeze(&s, o, ol); ascon_kmaca_free(&s); }
